@@ -7,7 +7,8 @@
    history tr = [(statement, outcome, table after it); ...].  The judge checks [trace_ok] on the tables the
    real interpreter shows after every statement (theorem 7), [exec]/[impl_trace] is the heap model of what
    mech does (cells shared by cloning), theorems 8a-8f show that this model breaks the property on six classes
-   of histories and theorem 9 that it satisfies it on every history outside them. *)
+   of histories, theorem 9 that it satisfies it on every history outside them, and theorem 10 that the model of
+   the interpreter with the three proposed patches satisfies it on every history but one class. *)
 From Coq Require Import List ZArith String.
 From MechV Require Import Base.Sexp Base.Obs Model.Store Proofs.StoreP.
 Import ListNotations.
@@ -112,6 +113,35 @@ Theorem C05_holds : forall h : list stmt,
   trace_ok [] (impl_trace cfg_cur store0 h).
 Proof. exact holds_class_free. Qed.
 Print Assumptions C05_holds.
+
+(* 10. The model of the REPAIRED interpreter (proposed/C05-define-copies-variable.diff, C05-destructure-atomic-
+       immutable.diff, C05-table-column-length.diff: `y := x` deep-copies, a destructure checks all targets first
+       and binds immutable copies, a table column refuses an over-long source) satisfies the property on EVERY
+       history whose definitions do not use a tuple/record literal with a variable element (class alias-literal,
+       which the patches leave alone): bare-variable definitions, destructures of every shape, valid and
+       invalid assignments of all forms are covered. *)
+Theorem C05_repaired_holds : forall h : list stmt,
+  Forall rep_safe h -> trace_ok [] (impl_trace cfg_rep store0 h).
+Proof. exact repaired_holds. Qed.
+Print Assumptions C05_repaired_holds.
+
+(* non-vacuity of 10: the witnesses of 8a, 8c, 8d, 8e, 8f are such histories; under the repaired model
+   a stays 1, the failing destructure defines nothing, p and q are immutable copies *)
+Example C05_repaired_example :
+  Forall rep_safe (w_alias_define ++ w_alias_destructure) /\
+  Forall rep_safe w_destructure_partial /\ Forall rep_safe w_table_column_partial /\
+  last (states (impl_trace cfg_rep store0 w_alias_define)) [] =
+    [("a", (false, DNum (dz 1))); ("b", (true, DNum (dz 5)))] /\
+  map (fun t => snd (fst t)) (impl_trace cfg_rep store0 w_alias_destructure) = [true; true; false] /\
+  last (states (impl_trace cfg_rep store0 w_alias_destructure)) [] =
+    [("t", (false, DTup [DNum (dz 1); DNum (dz 2)])); ("p", (false, DNum (dz 1))); ("q", (false, DNum (dz 2)))] /\
+  last (states (impl_trace cfg_rep store0 w_destructure_partial)) [] = [("a", (false, DNum (dz 1)))] /\
+  last (states (impl_trace cfg_rep store0 w_table_column_partial)) [] = [("t", (true, DTab [("fa", [dz 1; dz 2])]))].
+Proof.
+  split; [repeat constructor|]. split; [repeat constructor|]. split; [repeat constructor|].
+  repeat split; vm_compute; reflexivity.
+Qed.
+Print Assumptions C05_repaired_example.
 
 (* non-vacuity: a class-free history with successful and failing statements of most forms; the model's
    trace conforms, ends with x = 7, m = [1 9; 3 4] and r.fa = 3, and contains errors *)
